@@ -565,6 +565,7 @@ def abstract_depth_cases(ctx, guard, quick):
     """(kind, a, i, k): `a` arrays around `k` abstracts, each holding the next one inside `i` arrays; total depth of the leaf is
     a + k * (2 + i).  Around the guard for every offset, far beyond it, and seeded random ones"""
     cases = []
+    rng = type(ctx.rng)(ctx.seed).fork("C09/abstract-depth")      # a function of VERIF_SEED only: the case list replays exactly
     for kind in ("peg", "chan"):
         for i in (0, 1, 2):
             per = 2 + i
@@ -573,13 +574,13 @@ def abstract_depth_cases(ctx, guard, quick):
                 for k in range(max(1, kb - 2), kb + 3):
                     cases.append((kind, a, i, k))
         for k in (1, 2, 7, guard // 2 + 50, guard - 1, guard, guard + 1, 2 * guard + 1, 3 * guard):
-            cases.append((kind, ctx.rng.below(3), 0, k))
+            cases.append((kind, rng.below(3), 0, k))
         cases.append((kind, 0, 1, guard))
         for _ in range(12 if quick else 200):
-            i = ctx.rng.below(4)
-            a = ctx.rng.below(40)
+            i = rng.below(4)
+            a = rng.below(40)
             kb = max(1, (guard - a) // (2 + i))
-            k = max(1, kb + ctx.rng.range(-3, 3)) if ctx.rng.chance(3, 4) else ctx.rng.range(1, 3 * guard)
+            k = max(1, kb + rng.range(-3, 3)) if rng.chance(3, 4) else rng.range(1, 3 * guard)
             cases.append((kind, a, i, k))
     seen, out = set(), []
     for c in cases:
